@@ -83,7 +83,12 @@ Definition covers (ks : list string) (w : wire) : Prop :=
   forall c, In c (certs_used w) -> exists k, In k ks /\ c = Good k.
 
 (* ---- observations ---- *)
-Record trial := mktrial { t_keys : list string; t_wr : bool; t_wa : bool; t_damaged : bool }.
+(* a recipient: configured encryption keys, signature policy, whether the ciphertext was damaged on the way,
+   per-request keys (outstanding_certs) and whether they are filed under the Response's InResponseTo *)
+Record trial := mktrial { t_keys : list string; t_wr : bool; t_wa : bool; t_damaged : bool;
+                          t_req : list string; t_hit : bool }.
+(* every private key the recipient holds for this exchange *)
+Definition t_all (t : trial) : list string := key_list (t_hit t) (t_req t) (t_keys t).
 Definition ident := option (atom * list atom).
 Record obs := mkobs {
   o_res : result;                   (* the Response as a term, or Error *)
@@ -112,7 +117,7 @@ Definition recover (x : input) (o : obs) : Prop :=
   in_force x -> valid_advice x ->
   forall w, o_res o = Wire w ->
   forall t r, In (t, r) (o_trials o) ->
-    t_damaged t = false -> covers (t_keys t) w ->
+    t_damaged t = false -> covers (t_all t) w ->
     (t_wr t = true -> sr x = true) -> (t_wa t = true -> sa x = true) ->
     exists l, r = Some (subj x, l) /\ same_atoms l (attr_atoms x).
 
@@ -121,7 +126,7 @@ Definition nothing_more (x : input) (o : obs) : Prop :=
   forall t r, In (t, r) (o_trials o) ->
   forall s l, r = Some (s, l) ->
     let w' := if t_damaged t then damage w else w in
-    In s (derivable (opens_with (t_keys t)) w') /\ incl l (derivable (opens_with (t_keys t)) w').
+    In s (derivable (opens_with (t_all t)) w') /\ incl l (derivable (opens_with (t_all t)) w').
 
 Definition spec (x : input) (o : obs) : Prop :=
   conf_main x o /\ conf_adv x o /\ live x o /\ recover x o /\ nothing_more x o.
@@ -162,7 +167,7 @@ Definition recover_b x o : bool :=
   | Error => true
   | Wire w =>
       forallb (fun tr : trial * ident => let (t, r) := tr in
-        t_damaged t || negb (covers_b (t_keys t) w) || (t_wr t && negb (sr x)) || (t_wa t && negb (sa x))
+        t_damaged t || negb (covers_b (t_all t) w) || (t_wr t && negb (sr x)) || (t_wa t && negb (sa x))
         || recovered_b x r) (o_trials o)
   end.
 Definition nothing_more_b (x : input) (o : obs) : bool :=
@@ -173,7 +178,7 @@ Definition nothing_more_b (x : input) (o : obs) : bool :=
         match r with
         | None => true
         | Some (s, l) =>
-            let d := derivable (opens_with (t_keys t)) (if t_damaged t then damage w else w) in
+            let d := derivable (opens_with (t_all t)) (if t_damaged t then damage w else w) in
             mem s d && forallb (fun a => mem a d) l
         end) (o_trials o)
   end.
